@@ -197,7 +197,10 @@ func sweepScratch() {
 
 func scratchDir(id string) string {
 	base := envOr("VERIF_SCRATCH", "/var/tmp")
-	return filepath.Join(base, fmt.Sprintf("verif-%s-%d", id, os.Getpid()))
+	// fixed width: paths below this directory appear in scripts and error messages that instrumented code
+	// walks character by character, so their LENGTH is an input of a run (one more character, one more
+	// loop iteration, a preemption point somewhere else)
+	return filepath.Join(base, fmt.Sprintf("verif-%s-%08d", id, os.Getpid()%100000000))
 }
 
 // prepare copies /repo's working tree, instruments it, adds the simulator and
